@@ -33,7 +33,7 @@ KNOWN_B = ("C14b `m[i] = (k, v)` panics (vm.rs run_index_assign: swap_indices ou
            "key of another entry of m")
 KNOWN_C = "C14c `x.extend x` on a list or map panics (RefCell already mutably borrowed)"
 KNOWN_E = ("C14e `==` on numbers is not transitive beyond 2^53 (i64 -> f64 rounding): compare_values is then not a "
-           "total preorder and sort's contract does not apply")
+           "total preorder and sort's contract does not apply (lists of >20 such numbers make `sort` panic)")
 
 # ---------------------------------------------------------------------------
 # value descriptions: ('n',) ('b',bool) ('i',int) ('f',bits) ('s',bytes) ('r',lo,hi,incl) ('L',[..]) ('T',[..])
@@ -496,6 +496,14 @@ def check_pool(chk, name, pool, impl, model, sorts, ksorts, model_sorts, model_k
         stats["sorts"] += 1
         vals = [pool[i] for i in req]
         big = any(v[0] == "i" and abs(v[1]) > P53 for v in vals) and any(v[0] == "f" for v in vals)
+        if r.get("panic"):
+            if big:
+                chk.known(KNOWN_E)     # slice::sort_by panics: "comparison function does not correctly implement a total order"
+                stats["sorts_panicked_C14e"] += 1
+            else:
+                fails.append({"clause": "sorting does not crash the interpreter", "pool": name, "indices": req,
+                              "values": [to_json(v) for v in vals], "impl": r})
+            continue
         if mr[0] == 0:
             if r["ok"] and len(req) >= 2:
                 disagreements.append({"what": "sort_values: model reports an invalid comparison", "pool": name, "indices": req, "impl": r})
